@@ -120,6 +120,12 @@ def enum_queries(seed):
         run(f"{op}*/a*-1.5:ab", lambda p, vmatch=vmatch: G(p.package, "a*") and vmatch(p, "1.5") and p.slot == "ab", must_parse=True)
         run(f"{op}*/*-1::other", lambda p, vmatch=vmatch: vmatch(p, "1") and p.repo.repo_id == "other", must_parse=True)
         run(f"{op}a*/*b-2:a+b/1.5::other", lambda p, vmatch=vmatch: G(p.category, "a*") and G(p.package, "*b") and vmatch(p, "2") and p.slot == "a+b" and p.subslot == "1.5" and p.repo.repo_id == "other")
+    # a glob in the slot / sub-slot position behind a plain category/package (with or without operator and repository)
+    for sg in ("a*", "*b", "*", "a*b"):
+        run(f"a/ab:{sg}", lambda p, sg=sg: p.category == "a" and p.package == "ab" and G(p.slot, sg), must_parse=True)
+        run(f"dev-a/a:ab/{sg}", lambda p, sg=sg: p.category == "dev-a" and p.package == "a" and p.slot == "ab" and G(p.subslot, sg), must_parse=True)
+        run(f">=a/ab-2:{sg}", lambda p, sg=sg: p.category == "a" and p.package == "ab" and ver_cmp(p.version, p.revision, "2", None) >= 0 and G(p.slot, sg), must_parse=True)
+        run(f"a/ab:{sg}::other", lambda p, sg=sg: p.category == "a" and p.package == "ab" and G(p.slot, sg) and p.repo.repo_id == "other", must_parse=True)
     from pkgcore.ebuild.atom import atom
     for s in ("a/ab", ">=a/ab-2", "a/ab:aab", "dev-a/a:ab/a.b", "a/gtk+", "=a.b/ab-1", "a/ab::other"):
         a = atom(s)
